@@ -1,7 +1,8 @@
 /-
-  Lemmas/FwsStep — one iteration of the removal loop: in a strictly valid forest (no adjacent
-  text nodes) `remove` of a text node deletes that node and nothing else (`pruned`), no
-  consolidation fires; positions of everything that is not deleted survive.
+  Lemmas/FwsStep — one iteration of the removal loop: with consolidation off (as the loop runs
+  since /repo 1e1d5fd), and also in a strictly valid forest (no adjacent text nodes), `remove` of
+  a text node deletes that node and nothing else (`pruned`), no consolidation fires; positions
+  of everything that is not deleted survive.
 -/
 import XotModel.Lemmas.FwsPrune
 
